@@ -172,6 +172,7 @@ class AsyncClient(base_client.BaseClient):
                 pass
             if set(self.namespaces) != set(self.connection_namespaces):
                 await self.disconnect()
+                self.namespaces = {}
                 raise exceptions.ConnectionError(
                     'One or more namespaces failed to connect')
 
